@@ -1556,6 +1556,11 @@ func c14VisitsEveryFile(p *Prog, r *Report, rule string) {
 	}
 	head := f.loopHead(loop)
 	del := p.keysPred("(*internal/usecase/cleaner.UseCase).deleteFile")
+	if p.Func(kCleanDeleteFile) == nil {
+		// the per-file step was merged into this loop: an iteration attempts the file when it looks its content
+		// record up (the first step of the removal)
+		del = p.keysPred(kCFGet)
+	}
 	dels := setOf(f.NodesMust(del))
 	inLoop := func(n *GNode) bool {
 		return n.Ast != nil && n.Ast.Pos() >= loop.Body.Pos() && n.Ast.End() <= loop.Body.End()
